@@ -14,7 +14,7 @@ KINDS = {
     'C07': {'trace'},
     'C08': {'reply'},
     'C09': {'abs', 'alloc', 'wf', 'reply', 'cache'},
-    'C10': {'abs', 'alloc', 'reply', 'cache'},
+    'C10': {'abs', 'alloc', 'reply', 'cache', 'twin'},
     'C11': {'panic'},
     'C12': {'wf', 'reply', 'abs'},
     'C13': {'reply'},
